@@ -17,6 +17,8 @@
 import CB.Lemmas.GenBitsSafeGcdLimbs
 import CB.Lemmas.GenChainsSub
 import CB.Lemmas.GenSafeGcdJump
+import CB.Lemmas.GenBitsDiv
+import CB.Lemmas.GenBitsShifts
 namespace CB.GenSafeGcdLimbs
 open CB CB.Gen CB.Gen.SafeGcdLimbs CB.GenBits CB.SafeGcd
 open CB.GenChains (nats drop_eq_getD_cons take_set_succ)
@@ -232,6 +234,84 @@ theorem ushr_bridge (a : List (BitVec 64)) (hne : a ≠ []) : ushr (nats a) = na
   cases uisNeg (List.map BitVec.toNat a)
   · rfl
   · exact MASK62_toNat.symm
+
+/-! ## `leading_zeros`, `bits` -/
+
+/-- one word of `leading_zeros`: for a 62-bit word `l.leading_zeros() - 2` does not underflow -/
+theorem lz_word (x : BitVec 64) (hx : x.toNat < Q) :
+    ((BitVec.clz x).setWidth 32 - 2#32).toNat = lz64 x.toNat - 2 ∧ lz64 x.toNat - 2 ≤ 62 := by
+  have hc : lz64 x.toNat = (BitVec.clz x).toNat := clz_bv x
+  have h64 := clz_le_64 x
+  have h2 : 2 ≤ lz64 x.toNat := by
+    unfold lz64
+    split
+    · omega
+    · rename_i h0
+      have : Nat.log2 x.toNat < 62 := (Nat.log2_lt h0).mpr (by rw [Q_def] at hx; omega)
+      omega
+  rw [hc] at h2 ⊢
+  constructor
+  · rw [BitVec.toNat_sub, BitVec.toNat_setWidth]
+    simp only [BitVec.toNat_ofNat]
+    omega
+  · omega
+
+theorem lz_loop_bridge (L : Nat) (a : List (BitVec 64)) (wa : WFw a) :
+    ∀ (n : Nat) (count : BitVec 32) (p : Bool), n ≤ a.length → count.toNat + 62 * n < 2 ^ 32 →
+      (UnsatInt.leading_zeros_loop1 L a n count (ofBool p)).1.toNat = ulzGo (nats (a.take n)).reverse p count.toNat ∧
+      (UnsatInt.leading_zeros_loop1 L a n count (ofBool p)).1.toNat ≤ count.toNat + 62 * n := by
+  intro n
+  induction n with
+  | zero =>
+    intro count p _ _
+    rw [unsat_lz_loop_zero]
+    simp [nats, ulzGo]
+  | succ n ih =>
+    intro count p hn hc
+    have hlt : n < a.length := by omega
+    obtain ⟨w1, w2⟩ := lz_word (a.getD n 0#64) (WFw_getD wa n)
+    have hg : a.getD n 0#64 = a[n] := by simp [List.getD, hlt]
+    have htake : (nats (a.take (n + 1))).reverse = (a.getD n 0#64).toNat :: (nats (a.take n)).reverse := by
+      rw [List.take_succ, List.getElem?_eq_getElem hlt, hg]
+      simp only [nats, Option.toList, List.map_append, List.map_cons, List.map_nil, List.reverse_append,
+        List.reverse_cons, List.reverse_nil, List.nil_append, List.cons_append]
+    have hcount : (count + Choice.if_true_u32 (ofBool p) ((BitVec.clz (a.getD n 0#64)).setWidth 32 - 2#32)).toNat =
+        count.toNat + (if p then lz64 (a.getD n 0#64).toNat - 2 else 0) := by
+      rw [(select_meaning p).2.2.2.2.2, BitVec.toNat_add]
+      have hcl := count.isLt
+      cases p
+      · simp only [Bool.false_eq_true, if_false, BitVec.toNat_ofNat]; omega
+      · simp only [if_true, w1]; omega
+    have hflag : Choice.and (ofBool p) (Choice.not (Choice.from_u64_nonzero (a.getD n 0#64))) =
+        ofBool (p && ((a.getD n 0#64).toNat == 0)) := by
+      rw [from_u64_nonzero_meaning, (choice_algebra _ false).1, (choice_algebra _ _).2.2.1]
+      congr 2
+      rw [Bool.eq_iff_iff]
+      simp [← BitVec.toNat_inj]
+    rw [unsat_lz_loop_succ, hflag, htake]
+    obtain ⟨i1, i2⟩ := ih _ (p && ((a.getD n 0#64).toNat == 0)) (by omega) (by rw [hcount]; split <;> omega)
+    rw [hcount] at i1 i2
+    refine ⟨by rw [i1]; simp only [ulzGo], ?_⟩
+    split at i2 <;> omega
+
+/-- **`UnsatInt::leading_zeros`** / **`UnsatInt::bits`**: the model's `ulz` / `ubits`, for every limb count whose bit length
+    `62·LIMBS` fits the `u32` the source computes in -/
+theorem ulz_bridge (a : List (BitVec 64)) (wa : WFw a) (hL : 62 * a.length < 2 ^ 32) :
+    (UnsatInt.leading_zeros a.length a).toNat = ulz (nats a) ∧ (UnsatInt.bits a.length a).toNat = ubits (nats a) := by
+  obtain ⟨h1, h2⟩ := lz_loop_bridge a.length a wa a.length 0#32 true (le_refl _) (by simpa using hL)
+  have e : (~~~0#64) = ofBool true := by decide
+  have hlz : (UnsatInt.leading_zeros a.length a).toNat = ulz (nats a) := by
+    rw [unsat_lz_eq_loop, e, h1, ulz]
+    simp
+  refine ⟨hlz, ?_⟩
+  have hle : (UnsatInt.leading_zeros a.length a).toNat ≤ 62 * a.length := by
+    rw [unsat_lz_eq_loop, e]; simpa using h2
+  rw [unsat_bits_eq, BitVec.toNat_sub, BitVec.toNat_mul, hlz, ubits, nats_length, LB_eq]
+  rw [hlz] at hle
+  simp only [BitVec.toNat_ofNat]
+  have : a.length % 2 ^ 32 = a.length := Nat.mod_eq_of_lt (by omega)
+  rw [this]
+  omega
 
 /-! ## `select`, `eq` -/
 
